@@ -149,3 +149,79 @@ package ipa
 //@ prelude field
 //@ ensures maxEvalPointInsideDomain == fr_of_int(255)
 //@ modifies maxEvalPointInsideDomain
+
+// ---- verifier.go (C02): CheckIPAProof against the reference verifier ipa_accept of /verif/spec/ipaspec.smt2
+
+// the label constants of the reference verifier are the protocol's label strings; the package variables hold their
+// initialisers (engine fact for  var x = []byte("...")  variables that nothing but init writes)
+//@ pkginv lab_ipa == strbytes("ipa") && lab_C == strbytes("C") && lab_in == strbytes("input point") && lab_out == strbytes("output point") && lab_w == strbytes("w") && lab_L == strbytes("L") && lab_R == strbytes("R") && lab_x == strbytes("x")
+
+//@ func MultiScalar
+//@ props C02
+//@ assumed multi-scalar multiplication (gnark MultiExp behind banderwagon.Element.MultiExp) returns sum_k scalars[k]*points[k] and fails exactly on a length mismatch; C09 is not discharged by this framework
+//@ prelude field group bytes bytesint bytesbridge curve frint bary ipa ipaspec
+//@ requires validVec(points)
+//@ ensures err != nil <==> len(points) != len(scalars)
+//@ ensures err == nil ==> validP(result0.inner) && gelP(result0.inner) == gsum(points, scalars, len(points))
+
+//@ func commit
+//@ props C02
+//@ prelude field group bytes bytesint bytesbridge curve frint bary ipa ipaspec
+//@ requires validVec(groupElements)
+//@ ensures err != nil <==> len(groupElements) != len(polynomial)
+//@ ensures err == nil ==> validP(result0.inner) && gelP(result0.inner) == gsum(groupElements, polynomial, len(groupElements))
+
+//@ func generateChallenges
+//@ props C02
+//@ prelude field group bytes bytesint bytesbridge curve frint bary ipa ipaspec
+//@ let T0 = tr(transcript)
+//@ requires validTr(transcript) && len(proof.L) == len(proof.R)
+//@ ensures fresh(result) && len(result) == len(proof.L)
+//@ ensures forall k int :: 0 <= k && k < len(proof.L) ==> result[k] == ipa_x(proof.L, proof.R, T0, k)
+//@ ensures tr(transcript) == ipa_pend(proof.L, proof.R, T0, len(proof.L))
+//@ modifies *(transcript.buff), hcontent(transcript.state)
+//@ loop 0 invariant 0 <= i && i <= len(proof.L) && len(challenges) == len(proof.L) && fresh(challenges) && validTr(transcript)
+//@ loop 0 invariant tr(transcript) == ipa_pend(proof.L, proof.R, T0, i)
+//@ loop 0 invariant forall k int :: 0 <= k && k < i ==> challenges[k] == ipa_x(proof.L, proof.R, T0, k)
+
+//@ func CheckIPAProof
+//@ props C02
+//@ prelude field group bytes bytesint bytesbridge curve frint bary ipa ipaspec
+//@ let T0 = tr(transcript)
+//@ requires validTr(transcript) && validPW(ic.PrecomputedWeights) && obj(ic.PrecomputedWeights) >= 1
+//@ requires ic.numRounds == 8 && len(ic.SRS) == 256
+//@ requires validP(commitment.inner) && validP(ic.Q.inner)
+//@ requires validVec(ic.SRS)
+//@ let LR = row(proof.L)
+//@ let Lo = off(proof.L)
+//@ let RR = row(proof.R)
+//@ let Ro = off(proof.R)
+//@ let GR = row(ic.SRS)
+//@ let Go = off(ic.SRS)
+//@ fact vL(k int): 0 <= k && k < len(proof.L) ==> validP(LR[Lo + 3*k], LR[Lo + 3*k + 1], LR[Lo + 3*k + 2])
+//@ fact vR(k int): 0 <= k && k < len(proof.R) ==> validP(RR[Ro + 3*k], RR[Ro + 3*k + 1], RR[Ro + 3*k + 2])
+//@ at loopbody 0: inst vL(i)
+//@ at loopbody 0: inst vR(i)
+//@ ensures @C02 (len(proof.L) != 8 || len(proof.R) != 8) ==> !result0 && err != nil
+//@ ensures @C02 (len(proof.L) == 8 && len(proof.R) == 8) ==> err == nil
+//@ ensures @C02 (len(proof.L) == 8 && len(proof.R) == 8) ==> (result0 <==> ipa_accept(T0, ic.SRS, ic.Q.inner, commitment.inner, evalPoint, result, proof.L, proof.R, proof.A_scalar))
+//@ modifies *(transcript.buff), hcontent(transcript.state)
+// ghost snapshots: transcript and points before the challenge rounds; rows of the vectors the loops read
+//@ at call Add 0: ghost T3 := tr(transcript)
+//@ at call Add 0: ghost C0 := gelP(commitment.inner)
+//@ at call Add 0: ghost QW := gelP(q.inner)
+//@ at call BatchInvert 0: ghost CH := row(challenges)
+//@ at call BatchInvert 0: ghost CHo := off(challenges)
+//@ at call BatchInvert 0: ghost CI := row(challengesInv)
+//@ at call BatchInvert 0: ghost CIo := off(challengesInv)
+//@ at call BatchInvert 0: assert@chal forall k int :: 0 <= k && k < 8 ==> CH[k] == ipa_x(LR, Lo, 8, RR, Ro, 8, T3, k)
+//@ at call BatchInvert 0: assert@chalinv forall k int :: 0 <= k && k < 8 ==> CI[k] == fr_inv(CH[k])
+//@ loop 0 invariant 0 <= i && i <= 8 && len(challenges) == 8 && len(challengesInv) == 8 && validP(commitment.inner)
+//@ loop 0 invariant row(challenges) == CH && off(challenges) == CHo && row(challengesInv) == CI && off(challengesInv) == CIo
+//@ loop 0 invariant row(proof.L) == LR && off(proof.L) == Lo && row(proof.R) == RR && off(proof.R) == Ro
+//@ loop 0 invariant gelP(commitment.inner) == ipa_cacc(C0, LR, Lo, 8, RR, Ro, 8, T3, i)
+//@ loop 1 invariant 0 <= i && i <= 256 && len(foldingScalars) == 256 && fresh(foldingScalars) && len(g) == 256
+//@ loop 1 invariant row(g) == GR && off(g) == Go
+//@ loop 1 invariant row(challengesInv) == CI && off(challengesInv) == CIo && len(challengesInv) == 8 && len(challenges) == 8
+//@ loop 1 invariant forall j int :: 0 <= j && j < i ==> foldingScalars[j] == ipa_fold8(j, LR, Lo, 8, RR, Ro, 8, T3)
+//@ loop 2 unroll 8
